@@ -100,7 +100,29 @@ pub fn same_truth_table(a: &crate::policy::P, b: &crate::policy::P) -> bool {
         }
     }
     if atoms.len() > 16 {
-        return a == b;
+        // too many atoms for a table: equal up to the order of children of the commutative nodes
+        fn canon(p: &crate::policy::P) -> crate::policy::P {
+            use crate::policy::P;
+            match p {
+                P::And(v) => {
+                    let mut v: Vec<P> = v.iter().map(canon).collect();
+                    v.sort();
+                    P::And(v)
+                }
+                P::Or(v) => {
+                    let mut v: Vec<(usize, P)> = v.iter().map(|(_, c)| (1, canon(c))).collect();
+                    v.sort();
+                    P::Or(v)
+                }
+                P::Thresh(k, v) => {
+                    let mut v: Vec<P> = v.iter().map(canon).collect();
+                    v.sort();
+                    P::Thresh(*k, v)
+                }
+                x => x.clone(),
+            }
+        }
+        return canon(a) == canon(b);
     }
     for m in 0..(1u32 << atoms.len()) {
         let f = |p: &crate::policy::P| atoms.iter().position(|x| x == p).map(|i| m & (1 << i) != 0).unwrap_or(false);
@@ -155,89 +177,10 @@ where
     let cen = all
         .par_iter()
         .fold(Census::new, |mut cen, t| {
-            let env = Ctx::env();
-            let ms = match build::<Ctx::Key, Ctx>(t, env.as_ref()) {
-                Ok(m) => m,
-                Err(_) => {
-                    bump(&mut cen, "build_refused");
-                    return cen;
+            if let Some(bytes) = check_term::<Ctx>(rep, t, &mut cen) {
+                if t.size() <= 5 {
+                    scripts.lock().unwrap().push(bytes);
                 }
-            };
-            bump(&mut cen, "terms");
-            let tsx = t.sexpr();
-            let script = ms.encode();
-            let bytes = script.as_bytes().to_vec();
-            let mut viol = |class: &str, what: String| {
-                rep.violation(Violation {
-                    key: format!("C04|{}|{}|{}", class, Ctx::NAME, tsx),
-                    class: format!("{}-{}", class, Ctx::NAME),
-                    what,
-                    case: json!({"ctx": Ctx::NAME, "miniscript": ms.to_string(), "model": tsx, "script": hex(&bytes)}),
-                });
-            };
-            // encoder vs reference encoder (translation table of the specification)
-            let refb = encode_ref(t, &RefEnc { form: Ctx::form() });
-            if refb != bytes {
-                viol("encode-differs-from-reference", format!("reference encoding {}", hex(&refb)));
-            } else {
-                bump(&mut cen, "encodings_equal_reference");
-            }
-            if ms.script_size() != bytes.len() {
-                viol("script_size", format!("script_size() = {} but encoding has {} bytes", ms.script_size(), bytes.len()));
-            }
-            if ms.ext.pk_cost != bytes.len() {
-                viol("pk_cost", format!("ext.pk_cost = {} but encoding has {} bytes", ms.ext.pk_cost, bytes.len()));
-            }
-            // decode back
-            match guard(|| Miniscript::<Ctx::Key, Ctx>::decode_with_validation_params(&script, &ValidationParams::MAX)) {
-                Ok(Ok(m2)) => {
-                    bump(&mut cen, "decoded");
-                    let w2 = walk(&m2);
-                    // The script grammar is ambiguous (e.g. n:and_v(v:0,0) and and_v(v:0,n:0) share one
-                    // script), so the decoded tree need not be the same tree; it must have the same
-                    // spending semantics: equal truth tables of the harness's own lift.
-                    let kb = |s: &str| -> Vec<u8> {
-                        let k = Ctx::Key::from_str(s).unwrap();
-                        if Ctx::TAP {
-                            k.to_x_only_pubkey().serialize().to_vec()
-                        } else {
-                            k.to_public_key().to_bytes()
-                        }
-                    };
-                    let p1 = own_lift(&walk(&ms), &kb);
-                    let p2 = own_lift(&w2, &kb);
-                    if !same_truth_table(&p1, &p2) {
-                        viol("decode-semantics", format!("decoded {} has different spending semantics than {}", w2.sexpr(), tsx));
-                    } else if w2 == forget(&walk(&ms), &kb) {
-                        bump(&mut cen, "decoded_structurally_identical");
-                    } else {
-                        bump(&mut cen, "decoded_other_parse_same_semantics");
-                    }
-                    if m2.encode() != script {
-                        viol("decode-reencode", format!("re-encoding differs: {}", hex(m2.encode().as_bytes())));
-                    }
-                    if m2.ty != ms.ty {
-                        viol("decode-type", format!("decoded type {:?} original {:?}", m2.ty, ms.ty));
-                    }
-                    if ms.ty.corr.base == Base::B && ms.validate(&Ctx::CONSENSUS).is_ok() {
-                        match Miniscript::<Ctx::Key, Ctx>::decode_consensus(&script) {
-                            Ok(_) => bump(&mut cen, "decode_consensus_ok"),
-                            Err(e) => viol("decode_consensus-rejects", e.to_string()),
-                        }
-                    }
-                }
-                Ok(Err(e)) => {
-                    // the decoder works top-down from a complete expression: W terms cannot be top level
-                    if ms.ty.corr.base == Base::W {
-                        bump(&mut cen, "w_terms_not_decodable_at_top_level");
-                    } else {
-                        viol("decode-fails", format!("decode of own encoding fails: {}", e));
-                    }
-                }
-                Err(p) => viol("decode-panics", p),
-            }
-            if t.size() <= 5 {
-                scripts.lock().unwrap().push(bytes);
             }
             cen
         })
@@ -246,6 +189,198 @@ where
             a
         });
     (cen, te.count() as u64, te.attempted, scripts.into_inner().unwrap())
+}
+
+/// Value boundaries the node-count exploration cannot reach with its small leaf alphabet: every
+/// (k, n) of multi / sortedmulti / multi_a / thresh up to the consensus maxima that matter for the
+/// number encoding (OP_1..OP_16 vs. one- and two-byte pushes), and lock values around every
+/// change of the minimal-number length; each also below the parents that fold or wrap the last opcode.
+fn boundary_terms(tap: bool) -> Vec<T> {
+    let keys = |n: usize| -> Vec<String> { (0..n).map(|i| format!("K{}", i)).collect() };
+    let mut base: Vec<T> = vec![];
+    if !tap {
+        for n in 1..=20usize {
+            for k in 1..=n {
+                base.push(T::Multi(k, keys(n)));
+                if k == 1 || k == n || k == 16 || k == 17 {
+                    base.push(T::SortedMulti(k, keys(n)));
+                }
+            }
+        }
+    } else {
+        let ns: Vec<usize> = (1..=20).chain([127, 128, 129, 255, 256, 257, 999]).collect();
+        for &n in &ns {
+            let ks: Vec<usize> = if n <= 20 { (1..=n).collect() } else { vec![1, 16, 17, 127, 128, 255, 256, n - 1, n].into_iter().filter(|&k| k <= n).collect() };
+            for k in ks {
+                base.push(T::MultiA(k, keys(n)));
+                if k == 1 || k == n || k == 16 || k == 17 {
+                    base.push(T::SortedMultiA(k, keys(n)));
+                }
+            }
+        }
+    }
+    // thresh(k, pk, s:pk, ...): k and n across the OP_16 / 1-byte / 2-byte boundaries
+    for n in [1usize, 2, 3, 16, 17, 18, 20, 40] {
+        for k in [1usize, 2, 15, 16, 17, 18, n.saturating_sub(1), n] {
+            if k == 0 || k > n {
+                continue;
+            }
+            let mut subs = vec![T::Check(Box::new(T::PkK("K0".into())))];
+            for i in 1..n {
+                subs.push(T::Swap(Box::new(T::Check(Box::new(T::PkK(format!("K{}", i)))))));
+            }
+            base.push(T::Thresh(k, subs));
+        }
+    }
+    let mut vals: Vec<u32> = vec![];
+    for b in [1u32, 16, 17, 0x7f, 0x80, 0xff, 0x100, 0x7fff, 0x8000, 0xffff, 0x1_0000, 0x7f_ffff, 0x80_0000, 0xff_ffff, 0x100_0000, 499_999_999, 500_000_000, 0x7fff_ffff] {
+        for d in [-1i64, 0, 1] {
+            let v = b as i64 + d;
+            if v >= 1 && v <= 0x7fff_ffff {
+                vals.push(v as u32);
+            }
+        }
+    }
+    vals.sort();
+    vals.dedup();
+    for &v in &vals {
+        base.push(T::After(v));
+        // relative locks: the type-flag bit and the 16-bit value mask
+        base.push(T::Older(v));
+    }
+    for v in [0x3f_ffffu32, 0x40_0000, 0x40_0001, 0x40_ffff, 0x41_0000] {
+        base.push(T::Older(v));
+    }
+    base.sort();
+    base.dedup();
+    let mut out = vec![];
+    let pk = || T::Check(Box::new(T::PkK("Z".into())));
+    for b in base {
+        out.push(T::Verify(Box::new(b.clone())));
+        out.push(T::AndV(Box::new(T::Verify(Box::new(b.clone()))), Box::new(pk())));
+        out.push(T::AndV(Box::new(T::Verify(Box::new(pk()))), Box::new(b.clone())));
+        out.push(T::OrI(Box::new(b.clone()), Box::new(pk())));
+        out.push(b);
+    }
+    out
+}
+
+fn part_a_boundaries<Ctx: CtxInfo>(rep: &Report) -> Census
+where
+    Ctx::Key: ToPublicKey + FromStr,
+    ParseEnv: Env<Ctx::Key>,
+    <Ctx::Key as FromStr>::Err: std::fmt::Debug,
+    Ctx::Key: MiniscriptKey<Sha256 = sha256::Hash, Hash256 = miniscript::hash256::Hash, Ripemd160 = ripemd160::Hash, Hash160 = hash160::Hash>,
+{
+    let all = boundary_terms(Ctx::TAP);
+    let mut cen = all
+        .par_iter()
+        .fold(Census::new, |mut cen, t| {
+            let before = cen.get("terms").copied().unwrap_or(0);
+            check_term::<Ctx>(rep, t, &mut cen);
+            if cen.get("terms").copied().unwrap_or(0) > before {
+                bump(&mut cen, "boundary_terms");
+            }
+            cen
+        })
+        .reduce(Census::new, |mut a, b| {
+            merge(&mut a, b);
+            a
+        });
+    *cen.entry("boundary_terms_offered").or_insert(0) += all.len() as u64;
+    cen
+}
+
+/// All of part (a) for one term; returns its script when the term was built.
+fn check_term<Ctx: CtxInfo>(rep: &Report, t: &T, cen: &mut Census) -> Option<Vec<u8>>
+where
+    Ctx::Key: ToPublicKey + FromStr,
+    ParseEnv: Env<Ctx::Key>,
+    <Ctx::Key as FromStr>::Err: std::fmt::Debug,
+    Ctx::Key: MiniscriptKey<Sha256 = sha256::Hash, Hash256 = miniscript::hash256::Hash, Ripemd160 = ripemd160::Hash, Hash160 = hash160::Hash>,
+{
+    let env = Ctx::env();
+    let ms = match build::<Ctx::Key, Ctx>(t, env.as_ref()) {
+        Ok(m) => m,
+        Err(_) => {
+            bump(cen, "build_refused");
+            return None;
+        }
+    };
+    bump(cen, "terms");
+    let tsx = t.sexpr();
+    let script = ms.encode();
+    let bytes = script.as_bytes().to_vec();
+    let mut viol = |class: &str, what: String| {
+        rep.violation(Violation {
+            key: format!("C04|{}|{}|{}", class, Ctx::NAME, tsx),
+            class: format!("{}-{}", class, Ctx::NAME),
+            what,
+            case: json!({"ctx": Ctx::NAME, "miniscript": ms.to_string(), "model": tsx, "script": hex(&bytes)}),
+        });
+    };
+    // encoder vs reference encoder (translation table of the specification)
+    let refb = encode_ref(t, &RefEnc { form: Ctx::form() });
+    if refb != bytes {
+        viol("encode-differs-from-reference", format!("reference encoding {}", hex(&refb)));
+    } else {
+        bump(cen, "encodings_equal_reference");
+    }
+    if ms.script_size() != bytes.len() {
+        viol("script_size", format!("script_size() = {} but encoding has {} bytes", ms.script_size(), bytes.len()));
+    }
+    if ms.ext.pk_cost != bytes.len() {
+        viol("pk_cost", format!("ext.pk_cost = {} but encoding has {} bytes", ms.ext.pk_cost, bytes.len()));
+    }
+    // decode back
+    match guard(|| Miniscript::<Ctx::Key, Ctx>::decode_with_validation_params(&script, &ValidationParams::MAX)) {
+        Ok(Ok(m2)) => {
+            bump(cen, "decoded");
+            let w2 = walk(&m2);
+            // The script grammar is ambiguous (e.g. n:and_v(v:0,0) and and_v(v:0,n:0) share one
+            // script), so the decoded tree need not be the same tree; it must have the same
+            // spending semantics: equal truth tables of the harness's own lift.
+            let kb = |s: &str| -> Vec<u8> {
+                let k = Ctx::Key::from_str(s).unwrap();
+                if Ctx::TAP {
+                    k.to_x_only_pubkey().serialize().to_vec()
+                } else {
+                    k.to_public_key().to_bytes()
+                }
+            };
+            let p1 = own_lift(&walk(&ms), &kb);
+            let p2 = own_lift(&w2, &kb);
+            if !same_truth_table(&p1, &p2) {
+                viol("decode-semantics", format!("decoded {} has different spending semantics than {}", w2.sexpr(), tsx));
+            } else if w2 == forget(&walk(&ms), &kb) {
+                bump(cen, "decoded_structurally_identical");
+            } else {
+                bump(cen, "decoded_other_parse_same_semantics");
+            }
+            if m2.encode() != script {
+                viol("decode-reencode", format!("re-encoding differs: {}", hex(m2.encode().as_bytes())));
+            }
+            if m2.ty != ms.ty {
+                viol("decode-type", format!("decoded type {:?} original {:?}", m2.ty, ms.ty));
+            }
+            if ms.ty.corr.base == Base::B && ms.validate(&Ctx::CONSENSUS).is_ok() {
+                match Miniscript::<Ctx::Key, Ctx>::decode_consensus(&script) {
+                    Ok(_) => bump(cen, "decode_consensus_ok"),
+                    Err(e) => viol("decode_consensus-rejects", e.to_string()),
+                }
+            }
+        }
+        Ok(Err(e)) => {
+            // the decoder works top-down from a complete expression: W terms cannot be top level
+            if ms.ty.corr.base == Base::W {
+                bump(cen, "w_terms_not_decodable_at_top_level");
+            } else {
+                viol("decode-fails", format!("decode of own encoding fails: {}", e));
+            }
+        }
+        Err(p) => viol("decode-panics", p),
+    }
+    Some(bytes)
 }
 
 /// (b): anything that decodes must re-encode to exactly the input bytes.
@@ -526,6 +661,11 @@ pub fn run(tier: Tier) -> i32 {
         states += s;
         transitions += t;
     }
+    // value boundaries (k, n of multi / multi_a / thresh; lock values around every number-length change)
+    rep.merge_counts(&part_a_boundaries::<Segwitv0>(&rep));
+    rep.merge_counts(&part_a_boundaries::<Tap>(&rep));
+    rep.merge_counts(&part_a_boundaries::<Legacy>(&rep));
+    rep.merge_counts(&part_a_boundaries::<BareCtx>(&rep));
     rep.count("byte_strings_that_decoded", decoded_ok);
     rep.sample(json!({"token_alphabet": "31 opcodes, numbers 0 1 2 16 17 32 100, two keys, a 32-byte and a 20-byte string"}));
     rep.sample(json!({"single_edits": "per token: deletion, adjacent swap, substitution/insertion by every alphabet token, PUSHDATA1/2/4 forms, 01 nn instead of OP_n, zero-padded numbers, *VERIFY split into op + VERIFY"}));
